@@ -1674,7 +1674,18 @@ W_ROLES = ['RUN', 'TARGET', 'TASK', 'ALG', 'SV', 'VAL']
 
 
 def _dotted_fields(e):
-    """'.'.join([...]) / f'{a}.{b}' / a + '.' + b  -> list of field expressions, else None"""
+    """'.'.join([...]) / f'{a}.{b}' / a + '.' + b  -> list of field expressions (nested dotted parts spliced in), else None"""
+    fs = _dotted_fields1(e)
+    if fs is None:
+        return None
+    out = []
+    for x in fs:
+        sub = _dotted_fields(x.value if isinstance(x, ast.FormattedValue) else x)
+        out.extend(sub if sub is not None else [x])
+    return out
+
+
+def _dotted_fields1(e):
     if isinstance(e, ast.Call) and isinstance(e.func, ast.Attribute) and e.func.attr == 'join' and isinstance(e.func.value, ast.Constant) and e.func.value.value == '.' and len(e.args) == 1 and isinstance(e.args[0], (ast.List, ast.Tuple)):
         return list(e.args[0].elts)
     parts = None
@@ -1747,45 +1758,6 @@ class _Defs:
         return T().visit(copy.deepcopy(e))
 
 
-def _writer_roles(fn, fields, defs):
-    """role of every field of a stored-value name built in a Dataset writer"""
-    out = []
-    for e in fields:
-        ce = defs.canon(e)
-        if isinstance(ce, ast.Call) and isinstance(ce.func, ast.Name) and ce.func.id == 'str' and len(ce.args) == 1 and not ce.keywords:
-            ce = ce.args[0]  # str(x): the text of x (f-string fields are stringified the same way)
-        t = norm(ce)
-        if t == 'self._runid()':
-            out.append('RUN')
-        elif t == 'self._tn()':
-            out.append('TARGET')
-        elif t == 'self._task()':
-            out.append('TASK')
-        elif t in ('self._alg().name()', 'self._algn()'):
-            out.append('ALG')
-        elif isinstance(ce, ast.Call) and isinstance(ce.func, ast.Attribute) and ce.func.attr == 'name' and not ce.args and isinstance(ce.func.value, ast.Name):
-            x = ce.func.value.id
-            src = [norm(i) for i, _k in defs.loops.get(x, [])]
-            if x in fn.params() or any(s.endswith('.state_vectors()') for s in src):
-                out.append(('SV', x))
-            else:
-                out.append(f'?{t}')
-        elif isinstance(ce, ast.Name) and ce.id in defs.loops:
-            roles = set()
-            for it, idx in defs.loops[ce.id]:
-                s = norm(it)
-                if idx in (None, 0) and isinstance(it, ast.Call) and isinstance(it.func, ast.Attribute) and it.func.attr in ('keys', 'items') and isinstance(it.func.value, ast.Name) and (idx == 0) == (it.func.attr == 'items'):
-                    roles.add(('VAL', it.func.value.id))
-                elif idx is None and isinstance(it, ast.Name):
-                    roles.add(('VAL', it.id))
-                else:
-                    roles.add(f'?{ce.id} in {s}')
-            out.append(roles.pop() if len(roles) == 1 else f'?{t}')
-        else:
-            out.append(f'?{t}')
-    return out
-
-
 def _vref_name_roles(prog):
     fn = prog.func(VREF_AS_NAME)
     rets = [n for n in fn.own_nodes() if isinstance(n, ast.Return) and n.value is not None]
@@ -1823,6 +1795,138 @@ def _report_writers(prog):
     return out
 
 
+class _Chain:
+    """one `<bot>.new_values((name, flag))` site together with the same-class callers through which it is reached
+    (levels[0] = the function containing the site, levels[-1] = the store path entry, e.g. Interface._update).
+    Expressions are evaluated in the context of each caller: parameters of a helper are replaced by the caller's
+    arguments; remaining locals are tagged name@level so that the two scopes cannot be confused."""
+
+    def __init__(self, prog, site, levels):
+        self.prog, self.site, self.levels = prog, site, levels
+        self.defs = [_Defs(fn) for fn, _c in levels]
+
+    def argmap(self, level):
+        if level + 1 >= len(self.levels):
+            return {}
+        fn = self.levels[level][0]
+        call = self.levels[level + 1][1]
+        a = fn.node.args
+        names = [x.arg for x in a.posonlyargs + a.args]
+        defaults = dict(zip(names[len(names) - len(a.defaults):], a.defaults)) if a.defaults else {}
+        if fn.cls is not None and names and names[0] in ('self', 'cls') and not fn.is_staticmethod():
+            names = names[1:]
+        out = {}
+        for i, n in enumerate(names):
+            out[n] = arg(call, i, n)
+            if out[n] is None and n in defaults and isinstance(defaults[n], ast.Constant):
+                out[n] = defaults[n]
+        for x, d in zip(a.kwonlyargs, a.kw_defaults):
+            out[x.arg] = arg(call, None, x.arg) or (d if isinstance(d, ast.Constant) else None)
+        return out
+
+    def subst(self, e, level, depth=8):
+        import copy
+
+        fn, defs = self.levels[level][0], self.defs[level]
+        ce = defs.canon(e)
+        amap = self.argmap(level)
+        chain = self
+
+        class T(ast.NodeTransformer):
+            def visit_Name(self, node):
+                if '@' in node.id or not isinstance(node.ctx, ast.Load):
+                    return node
+                if node.id in amap and depth > 0:
+                    if amap[node.id] is None:
+                        return ast.Name(id=f'{node.id}@{level}', ctx=ast.Load())
+                    if isinstance(amap[node.id], ast.Constant):
+                        return copy.deepcopy(amap[node.id])
+                    return chain.subst(amap[node.id], level + 1, depth - 1)
+                if node.id not in ('self', 'cls') and (node.id in defs.loops or node.id in fn.params() or node.id in defs.vals):
+                    return ast.Name(id=f'{node.id}@{level}', ctx=ast.Load())
+                return node
+
+        return ast.fix_missing_locations(T().visit(ce))
+
+
+def _same_class_callers(prog, h):
+    out = []
+    if h.cls is None:
+        return out
+    for g in prog.funcs.values():
+        if g.cls is not h.cls or g is h:
+            continue
+        for c in g.calls():
+            sym = prog.callee(c, g)
+            if sym and prog.func_of(sym) is h:
+                out.append((g, c))
+    return out
+
+
+def _report_chains(prog, maxdepth=2):
+    chains = []
+    for fn, c in _report_writers(prog):
+
+        def grow(levels, depth):
+            callers = _same_class_callers(prog, levels[-1][0]) if depth < maxdepth else []
+            callers = [(g, k) for g, k in callers if all(g is not l[0] for l in levels)]
+            if not callers:
+                chains.append(_Chain(prog, c, levels))
+                return
+            for g, k in callers:
+                grow(levels + [(g, k)], depth + 1)
+
+        grow([(fn, None)], 0)
+    return chains
+
+
+def _chain_roles(ch, fields):
+    """role of every field of a reported name (fields already evaluated in caller context by _Chain.subst)"""
+    out = []
+    nlev = len(ch.levels)
+    for ce in fields:
+        if isinstance(ce, ast.Call) and isinstance(ce.func, ast.Name) and ce.func.id == 'str' and len(ce.args) == 1 and not ce.keywords:
+            ce = ce.args[0]  # str(x): the text of x (f-string fields are stringified the same way)
+        t = norm(ce)
+        if t == 'self._runid()':
+            out.append('RUN')
+        elif t == 'self._tn()':
+            out.append('TARGET')
+        elif t == 'self._task()':
+            out.append('TASK')
+        elif t in ('self._alg().name()', 'self._algn()'):
+            out.append('ALG')
+        elif t == 'repr(self._bot())':
+            # the bots' __repr__ is '<run id>.<target of the bot>.<task name>'
+            out += ['RUN', "?the bot's target (through repr(self._bot()))", 'TASK']
+        elif isinstance(ce, ast.Call) and isinstance(ce.func, ast.Attribute) and ce.func.attr == 'name' and not ce.args and isinstance(ce.func.value, ast.Name) and '@' in ce.func.value.id:
+            x, lv = ce.func.value.id.rsplit('@', 1)
+            lv = int(lv)
+            fn, defs = ch.levels[lv][0], ch.defs[lv]
+            src = [norm(i) for i, _k in defs.loops.get(x, [])]
+            if (x in fn.params() and lv == nlev - 1) or any(s.endswith('.state_vectors()') for s in src):
+                out.append(('SV', ce.func.value.id))
+            else:
+                out.append(f'?{t}')
+        elif isinstance(ce, ast.Name) and '@' in ce.id:
+            x, lv = ce.id.rsplit('@', 1)
+            lv = int(lv)
+            defs = ch.defs[lv]
+            roles = set()
+            for it0, idx in defs.loops.get(x, []):
+                it = ch.subst(it0, lv)
+                if idx in (None, 0) and isinstance(it, ast.Call) and isinstance(it.func, ast.Attribute) and it.func.attr in ('keys', 'items') and isinstance(it.func.value, ast.Name) and (idx == 0) == (it.func.attr == 'items'):
+                    roles.add(('VAL', it.func.value.id))
+                elif idx is None and isinstance(it, ast.Name):
+                    roles.add(('VAL', it.id))
+                else:
+                    roles.add(f'?{x} in {norm(it)}')
+            out.append(roles.pop() if len(roles) == 1 else f'?{t}')
+        else:
+            out.append(f'?{t}')
+    return out
+
+
 def _rule4(ctx, rep, ranges):
     prog = ctx.prog
     with rep.rule(
@@ -1832,15 +1936,18 @@ def _rule4(ctx, rep, ranges):
         floor=14,
         breaks='update compares names that can never be equal (nothing is rescheduled) or schedules the dependents for a string that is not the target the values were stored under',
     ) as r:
-        writers = _report_writers(prog)
+        chains = _report_chains(prog)
         shapes = []
-        for fn, c in writers:
+        seen_keys = set()
+        for ch in chains:
             r.instance()
-            rep.analysed(fn)
-            defs = _Defs(fn)
+            fn, c = ch.levels[0][0], ch.site
+            root = ch.levels[-1][0]
+            for lf, _k in ch.levels:
+                rep.analysed(lf)
             a0 = c.args[0] if c.args else c.keywords[0].value
-            entry = defs.canon(a0)
-            key = f'{fn.qname}:new-value-name'
+            entry = ch.subst(a0, 0)
+            key = f'{fn.qname}:new-value-name' + (f'[reached from {root.qname}]' if len(ch.levels) > 1 else '')
             if not (isinstance(entry, ast.Tuple) and len(entry.elts) == 2):
                 r.fail(key, where(fn, c), f'the report entry {norm(a0)[:80]} is not a (name, isnew) pair this rule can read')
                 continue
@@ -1848,34 +1955,43 @@ def _rule4(ctx, rep, ranges):
             if fields is None:
                 r.fail(key, where(fn, c), f'the reported name {norm(entry.elts[0])[:100]} is not built as a dotted join of fields')
                 continue
-            roles = _writer_roles(fn, fields, defs)
+            roles = _chain_roles(ch, fields)
             kinds = [x[0] if isinstance(x, tuple) else x for x in roles]
             same_sv = len(roles) == 6 and isinstance(roles[4], tuple) and isinstance(roles[5], tuple) and roles[4][1] == roles[5][1]
             ok = kinds == W_ROLES and same_sv
             shapes.append(kinds)
             msg = f'reported name has fields {kinds}, expected {W_ROLES} joined by "."'
             if len(kinds) > 1 and kinds[1] != 'TARGET' and kinds[:1] == ['RUN']:
-                msg += f'; field 1 is {norm(defs.canon(fields[1]))}, not the dataset\'s own target name self._tn() under which the value is stored'
+                msg += f'; field 1 is {kinds[1].lstrip("?")}, not the dataset\'s own target name self._tn() under which the value is stored (they differ for a dataset obtained through retarget(): consumers of the sub-target are never queued)'
+            if len(ch.levels) > 1:
+                msg += f' [name built in {fn.qname}, store path {root.qname}]'
             r.check(ok, key, where(fn, c), f'fields {kinds}', msg)
-            # the same target name keys the stored value
-            for k in fn.calls():
-                sym = prog.callee(k, fn) or ''
-                kf = prog.func_of(sym)
-                if kf is None or kf.cls is None or kf.cls is not fn.cls:
-                    continue
-                ps = kf.params()
-                if 'tn' not in ps:
-                    continue
-                i = ps.index('tn') - (0 if kf.is_staticmethod() else 1)
-                tn_arg = arg(k, i, 'tn')
-                if tn_arg is None:
-                    dflt_ok = any(isinstance(n, ast.Assign) and norm(n.value).replace(' ', '') in ('tniftnelseself._tn()', 'tnorself._tn()') for n in kf.own_nodes())
-                    r.check(dflt_ok, f'{fn.qname}:key-target:{norm(k)[:60]}', where(fn, k), f'{kf.name} defaults to self._tn()', f'{norm(k)[:80]}: the target of the database key does not default to self._tn()', nontrivial=False)
-                else:
-                    t = norm(defs.canon(tn_arg))
-                    r.check(t == 'self._tn()', f'{fn.qname}:key-target:{norm(k)[:60]}', where(fn, k), 'database key uses self._tn()', f'{norm(k)[:80]}: the database key is built for target {t} while the report must name the same target')
-        if len(writers) < 3:
-            raise AnalysisError(f'only {len(writers)} new-value report writers found in the database back ends (expected shelve _update, shelve _update_msv, post _update)')
+            # the same target name keys the stored value (every function of the store path)
+            for lvl, (lf, _k) in enumerate(ch.levels):
+                for k in lf.calls():
+                    sym = prog.callee(k, lf) or ''
+                    kf = prog.func_of(sym)
+                    if kf is None or kf.cls is None or kf.cls is not lf.cls:
+                        continue
+                    ps = kf.params()
+                    if 'tn' not in ps:
+                        continue
+                    kkey = f'{lf.qname}:key-target:{norm(k)[:60]}'
+                    if kkey in seen_keys:
+                        continue
+                    seen_keys.add(kkey)
+                    i = ps.index('tn') - (0 if kf.is_staticmethod() else 1)
+                    tn_arg = arg(k, i, 'tn')
+                    if tn_arg is None:
+                        dflt_ok = any(isinstance(n, ast.Assign) and norm(n.value).replace(' ', '') in ('tniftnelseself._tn()', 'tnorself._tn()') for n in kf.own_nodes())
+                        r.check(dflt_ok, kkey, where(lf, k), f'{kf.name} defaults to self._tn()', f'{norm(k)[:80]}: the target of the database key does not default to self._tn()', nontrivial=False)
+                    else:
+                        t = norm(ch.subst(tn_arg, lvl))
+                        r.check(t == 'self._tn()', kkey, where(lf, k), 'database key uses self._tn()', f'{norm(k)[:80]}: the database key is built for target {t} while the report must name the same target')
+        if len(chains) < 3:
+            raise AnalysisError(
+                f'only {len(chains)} report-name shapes reach <bot>.new_values(...) over the store paths of the database back ends (expected shelve _update, shelve _update_msv, post _update)'
+            )
         good = [s for s in shapes if s == W_ROLES]
         arity = 6
         ti, n0 = W_ROLES.index('TARGET'), W_ROLES.index('TASK')
@@ -2238,6 +2354,7 @@ VARIANTS = [
     V('metric writer swaps alg and sv', 'B', _SM, 'Interface._update_msv', '[str(runid), tn, task, alg.name(), msv.name(), k]', '[str(runid), tn, task, msv.name(), alg.name(), k]', 'R-C02-4'),
     V('database key for another target', 'B', _SM, 'Interface._update', 'vname = self.__to_key(runid, tn, task, alg, sv, vn)', 'vname = self.__to_key(runid, self._bot()._target(), task, alg, sv, vn)', 'R-C02-4'),
     V('post writer names the bot target', 'B', 'db/post/__init__.py', 'Interface._update', 'str(self._runid()),\n                                self._tn(),', 'str(self._runid()),\n                                self._bot()._target(),', 'R-C02-4'),
+    V('report helper names the bot target (repr of the bot)', 'B', _SM, 'Interface', '''self._bot().new_values(\n                        (\n                            '.'.join(\n                                [str(runid), tn, task, alg.name(), sv.name(), k]\n                            ),\n                            isnew,\n                        )\n                    )\n                    pass\n                pass\n        finally:\n            self._log.debug("update: Releaseing for %s", name)\n            comms.release(lok)\n            pass\n        return\n\n    def _update_msv(self, msv):''', '''self.__report(alg, sv, k, isnew)\n                    pass\n                pass\n        finally:\n            self._log.debug("update: Releaseing for %s", name)\n            comms.release(lok)\n            pass\n        return\n\n    def __report(self, alg, sv, vn, isnew):\n        name = '.'.join([repr(self._bot()), alg.name(), sv.name(), vn])\n        self._bot().new_values((name, isnew))\n        return\n\n    def _update_msv(self, msv):''', 'R-C02-4'),
     V('vref_as_name swaps alg and sv', 'B', _RF, 'vref_as_name', 'vref.impl.name(),\n            vref.item.name(),', 'vref.item.name(),\n            vref.impl.name(),', 'R-C02-4'),
     V('feedback table keyed by consumer', 'B', 'pl/dag.py', 'Construct._feedback', 'self._feedbacks[fbn] = node.tag', 'self._feedbacks[node.tag] = fbn', 'R-C02-4'),
     # R-C02-5
@@ -2265,6 +2382,7 @@ VARIANTS = [
     V('organize: targets defaulted with or', 'N', *_O, 'targets = targets if targets else set()', 'targets = targets or set()', None),
     V('_priors with early returns', 'N', _S, '_priors', '    if isinstance(node, dawgie.Algorithm):\n        result = node.previous()', 'if isinstance(node, dawgie.Algorithm):\n        return node.previous()', None),
     V('as_vref with an explicit inner loop', 'N', _RF, 'as_vref', '            yield from svref2vref(reference)', 'for v in svref2vref(reference):\n                yield v', None),
+    V('report extracted into a same-class helper', 'N', _SM, 'Interface', '''self._bot().new_values(\n                        (\n                            '.'.join(\n                                [str(runid), tn, task, alg.name(), sv.name(), k]\n                            ),\n                            isnew,\n                        )\n                    )\n                    pass\n                pass\n        finally:\n            self._log.debug("update: Releaseing for %s", name)\n            comms.release(lok)\n            pass\n        return\n\n    def _update_msv(self, msv):''', '''self.__report(alg, sv, k, isnew)\n                    pass\n                pass\n        finally:\n            self._log.debug("update: Releaseing for %s", name)\n            comms.release(lok)\n            pass\n        return\n\n    def __report(self, alg, sv, vn, isnew):\n        name = '.'.join([str(self._runid()), self._tn(), self._task(), alg.name(), sv.name(), vn])\n        self._bot().new_values((name, isnew))\n        return\n\n    def _update_msv(self, msv):''', None),
     V('shelve writer as f-string', 'N', _SM, 'Interface._update', "'.'.join(\n                                [str(runid), tn, task, alg.name(), sv.name(), k]\n                            )", "f'{runid!s}.{tn}.{task}.{alg.name()}.{sv.name()}.{k}'", None),
     V('success tested on the reply field', 'N', 'pl/farm.py', 'Hand._res', 'if state == dawgie.pl.schedule.State.success:', 'if msg.success:', None),
     V('reply application extracted into a local helper', 'N', 'pl/farm.py', 'Hand._res',
